@@ -84,6 +84,11 @@ type Service struct {
 	// docs/design-documents/20260706-forceful-stop-test-determinism.md.
 	terminalErrors *csync.Map[string, error]
 
+	// publishMu serializes the writers of runningPipelines (the publication in
+	// runPipeline and the compare-and-delete of the cleanup goroutine), exactly
+	// as in pkg/lifecycle (#2806).
+	publishMu sync.Mutex
+
 	isGracefulShutdown atomic.Bool
 	metricsDisabled    bool
 }
@@ -1660,8 +1665,18 @@ func (s *Service) runPipeline(rp *runnablePipeline) error {
 		// delete leaves no window where neither is observable).
 		s.terminalErrors.Set(rp.pipeline.ID, err)
 
-		// confirmed that all nodes stopped, we can now remove the pipeline from the running pipelines
-		s.runningPipelines.Delete(rp.pipeline.ID)
+		// confirmed that all nodes stopped, we can now remove the pipeline from the
+		// running pipelines - but only if the entry is still THIS run. The closing
+		// status written above already admits a new Start; once that Start has
+		// published its run, an unconditional Delete here would erase the NEW
+		// run's entry: Stop then answers "not running" and WaitPipeline returns
+		// this run's recorded error for a pipeline that is Running (#2806, fixed
+		// in pkg/lifecycle by deleteRunningPipelineIfCurrent).
+		s.publishMu.Lock()
+		if current, ok := s.runningPipelines.Get(rp.pipeline.ID); ok && current == rp {
+			s.runningPipelines.Delete(rp.pipeline.ID)
+		}
+		s.publishMu.Unlock()
 
 		s.notify(rp.pipeline.ID, err)
 		return err
@@ -1705,7 +1720,9 @@ func (s *Service) runPipeline(rp *runnablePipeline) error {
 	//   - that cleanup goroutine blocks on startupDone (closed below), so it
 	//     can never Delete before this Set, which would strand a live run
 	//     outside the map.
+	s.publishMu.Lock()
 	s.runningPipelines.Set(rp.pipeline.ID, rp)
+	s.publishMu.Unlock()
 
 	// It's now safe to make the potentially slow UpdateStatus call and then
 	// release the cleanup goroutine to make its own. close(startupDone)
